@@ -402,4 +402,379 @@ Proof using All.
   rewrite Z.eqb_refl. apply orb_true_r.
 Qed.
 
+(* ---- addons: the loop invariant [tile_ad_b] ---- *)
+
+Lemma is_zero_perf_false a b ts : 0 <= a -> a < b -> is_zero_perf (mkPerf (mkRange a b) ts) = false.
+Proof using.
+  clear. intros H0 Hlt. unfold is_zero_perf, is_zero_range. prj.
+  destruct (Z.eqb_spec b 0); [lia|]. now rewrite andb_false_r.
+Qed.
+
+Lemma is_zero_accrual_false a b iv st en acc : 0 <= a -> a < b ->
+  is_zero_accrual (mkAccrual (mkRange a b) iv st en acc) = false.
+Proof using.
+  clear. intros H0 Hlt. unfold is_zero_accrual, is_zero_range. prj.
+  destruct (Z.eqb_spec b 0); [lia|]. now rewrite andb_false_r.
+Qed.
+
+Lemma restline_lt a b : restline_b (slice t a b) = true -> a < b.
+Proof using. clear. intros H. apply (slice_nonnil_lt t). now apply restline_nonnil. Qed.
+
+Lemma tile_perf_nonempty eofok lo hi p c :
+  tile_ad_b t eofok lo hi p c = true -> is_zero_perf p = false -> range_empty (pf_range p) = false.
+Proof using.
+  clear. unfold tile_ad_b, range_empty. intros H Hz. rewrite Hz in H.
+  destruct (is_zero_accrual c); repeat (apply andb_true_iff in H; destruct H as (H & ?)); lia.
+Qed.
+
+Lemma tile_accr_nonempty eofok lo hi p c :
+  tile_ad_b t eofok lo hi p c = true -> is_zero_accrual c = false -> range_empty (ac_range c) = false.
+Proof using.
+  clear. unfold tile_ad_b, range_empty. intros H Hz. rewrite Hz in H.
+  destruct (is_zero_perf p); repeat (apply andb_true_iff in H; destruct H as (H & ?)); lia.
+Qed.
+
+Definition AdSep (lo : Z) (s : state) (ad : addons) : Prop :=
+  tile_ad_b t false lo (off s) (ad_perf ad) (ad_accrual ad) = true /\
+  sep_perf t (ad_perf ad) = true /\ sep_accrual t (ad_accrual ad) = true.
+
+Lemma i_addons_loop_sep sc : forall n s ad, VInv s -> AdSep (sc_start sc) s ad -> sc_start sc <= off s ->
+  ipost (fun a s' => ad_range a = mkRange (sc_start sc) (off s') /\ sc_start sc < off s' /\
+                     tile_ad_b t (cur s' =? eof) (sc_start sc) (off s') (ad_perf a) (ad_accrual a) = true /\
+                     sep_perf t (ad_perf a) = true /\ sep_accrual t (ad_accrual a) = true)
+        (off s) (addons_loop E sc n ad s).
+Proof using All.
+  induction n as [|n IH]; intros s ad HV (Ht & Hsp & Hsa) Hlo; cbn [addons_loop]; [exact I|].
+  istep i_ra as r s1 HV1 L1 (Hr & kw & Hin & Hw). { repeat constructor; unfold ascii; lia. }
+  pose proof (win_off s kw s1 (proj1 HV) (proj1 HV1) Hw) as Ho.
+  pose proof (win_slice s kw s1 (proj1 HV) (proj1 HV1) Hw) as Hsl.
+  assert (Hex : extract E r = kw) by (rewrite Hr; unfold extract; prj; exact Hsl).
+  pose proof (inv_facts s (proj1 HV)) as (H0 & _).
+  assert (Hlt : off s < off s1).
+  { assert (1 <= zlen kw) by (cbn [In] in Hin; destruct Hin as [<-|[<-|[]]]; vm_compute; discriminate). lia. }
+  set (lo := sc_start sc) in *.
+  eapply ipost_bind with (Q1 := fun ad' s2 =>
+      sep_perf t (ad_perf ad') = true /\ sep_accrual t (ad_accrual ad') = true /\
+      forall eofok hi, restline_end_b eofok (slice t (off s2) hi) = true ->
+                       tile_ad_b t eofok lo hi (ad_perf ad') (ad_accrual ad') = true); [|lia|].
+  { destruct (str_eqb (extract E r) kw_performance) eqn:E1.
+    - destruct (is_zero_perf (ad_perf ad)) eqn:Hzp.
+      2: { rewrite (tile_perf_nonempty _ _ _ _ _ Ht Hzp). exact I. }
+      destruct (negb (range_empty (pf_range (ad_perf ad)))); [exact I|].
+      istep i_performance_sep as p s2 HV2 L2 (Hpr & Hlen2 & Hst).
+      apply ipost_ret; [assumption|lia|]. prj.
+      apply str_eqb_eq in E1. rewrite Hex in E1. rewrite E1 in Ho, Hsl.
+      assert (Ho1 : off s1 = off s + 12) by (rewrite Ho; reflexivity).
+      rewrite Hpr, Hr, (extend_range _ _ _ Hlt) by lia.
+      split; [|split; [exact Hsa|]].
+      { unfold sep_perf. prj. change (zlen kw_paren) with 13. replace (off s + 13) with (off s1 + 1) by lia.
+        rewrite Hst. apply orb_true_r. }
+      assert (Hlt2 : off s < off s2) by lia.
+      intros eofok hi Hrl. unfold tile_ad_b in Ht |- *. prj. rewrite Hzp in Ht.
+      rewrite (is_zero_perf_false _ _ _ H0 Hlt2).
+      destruct (is_zero_accrual (ad_accrual ad)) eqn:Hza.
+      + rewrite Hrl. lia.
+      + apply andb_true_iff in Ht. destruct Ht as (Ht & Hr3). apply andb_true_iff in Ht. destruct Ht as (Hr1 & Hr2).
+        rewrite restline_end_false in Hr3. pose proof (restline_lt _ _ Hr3) as Hlt3.
+        rewrite Hr1, Hr2, Hr3, Hrl.
+        destruct (Z.ltb_spec (off s) (r_start (ac_range (ad_accrual ad)))); [lia|].
+        destruct (Z.ltb_spec (off s) (off s2)); [reflexivity|lia].
+    - destruct (str_eqb (extract E r) kw_accrue) eqn:E2.
+      + destruct (is_zero_accrual (ad_accrual ad)) eqn:Hza.
+        2: { rewrite (tile_accr_nonempty _ _ _ _ _ Ht Hza). exact I. }
+        destruct (negb (range_empty (ac_range (ad_accrual ad)))); [exact I|].
+        istep i_accrual_sep as a s2 HV2 L2 (Har & Hlen2 & Hst).
+        apply ipost_ret; [assumption|lia|]. prj.
+        rewrite Har, Hr, (extend_range _ _ _ Hlt) by lia.
+        split; [exact Hsp|]. split; [apply Hst; reflexivity|].
+        assert (Hlt2 : off s < off s2) by lia.
+        intros eofok hi Hrl. unfold tile_ad_b in Ht |- *. prj. rewrite Hza in Ht.
+        rewrite (is_zero_accrual_false _ _ _ _ _ _ H0 Hlt2).
+        destruct (is_zero_perf (ad_perf ad)) eqn:Hzp.
+        * rewrite Hrl. lia.
+        * apply andb_true_iff in Ht. destruct Ht as (Ht & Hr3). apply andb_true_iff in Ht. destruct Ht as (Hr1 & Hr2).
+          rewrite restline_end_false in Hr3. pose proof (restline_lt _ _ Hr3) as Hlt3.
+          rewrite Hr1, Hr2, Hr3, Hrl.
+          destruct (Z.ltb_spec (r_start (pf_range (ad_perf ad))) (off s)); [|lia].
+          destruct (Z.ltb_spec (off s) (off s2)); [reflexivity|lia].
+      + exfalso. rewrite Hex in E1, E2. cbn [In] in Hin.
+        destruct Hin as [<-|[<-|[]]]; [rewrite str_eqb_refl in E1|rewrite str_eqb_refl in E2]; discriminate. }
+  intros ad' s2 HV2 L2 (Hsp' & Hsa' & Htile).
+  eapply ipost_bind with (Q1 := fun _ s3 => rest_of_line E s2 s3);
+    [apply replace_err_ipost; apply i_rest; assumption|lia|].
+  intros _ s3 HV3 L3 Hrl. cbv beta in *.
+  pose proof (Htile _ _ (rest_end_b s2 s3 HV2 HV3 Hrl)) as Ht3.
+  unfold ifM. destruct (Z.eqb_spec (cur s3) 64) as [H64|H64]; cbn [negb].
+  - eapply ipost_weaken; [apply (IH s3 ad' HV3)|lia|].
+    + split; [|split; assumption]. replace (cur s3 =? eof) with false in Ht3; [exact Ht3|].
+      rewrite H64. reflexivity.
+    + lia.
+    + intros a s' _ L' Ha. exact Ha.
+  - apply ipost_ret_with; [assumption|lia|]. prj. split; [reflexivity|]. split; [lia|].
+    split; [exact Ht3|]. split; assumption.
+Qed.
+
+Lemma i_addons_sep s : VInv s ->
+  ipost (fun a s' => ad_range a = mkRange (off s) (off s') /\ off s < off s' /\
+                     tile_ad_b t (cur s' =? eof) (off s) (off s') (ad_perf a) (ad_accrual a) = true /\
+                     sep_perf t (ad_perf a) = true /\ sep_accrual t (ad_accrual a) = true)
+        (off s) (parse_addons E s).
+Proof using All.
+  intros HV. unfold parse_addons. apply ipost_annot.
+  apply (i_addons_loop_sep (new_scope DAddons s) (loop_fuel E) s zero_addons HV); [|prj; lia].
+  split; [|split; reflexivity]. unfold tile_ad_b. prj. cbn [ad_perf ad_accrual zero_addons].
+  change (is_zero_perf zero_perf) with true. change (is_zero_accrual zero_accrual) with true. apply Z.eqb_refl.
+Qed.
+
+(* ---- the kinds of directives ---- *)
+
+Lemma i_include_sep s : VInv s ->
+  ipost (fun i s' => in_range i = mkRange (off s) (off s') /\ r_end (qs_range (in_path i)) = off s')
+        (off s) (parse_include E s).
+Proof using All.
+  intros HV. unfold parse_include. apply ipost_annot.
+  istep i_rs as ? s1 HV1 L1 _. { repeat constructor; unfold ascii; lia. }
+  istep i_ws1w as ? s2 HV2 L2 _.
+  istep i_quoted as q s3 HV3 L3 (Hq & _ & _).
+  apply ipost_ret_with; [assumption|lia|]. prj. rewrite Hq. prj. split; reflexivity.
+Qed.
+
+Lemma i_open_sep sc date s : VInv s ->
+  ipost (fun o s' => op_date o = date /\ op_range o = mkRange (sc_start sc) (off s') /\
+                     r_end (acc_range (op_account o)) = off s')
+        (off s) (parse_open E sc date s).
+Proof using All.
+  intros HV. unfold parse_open. apply ipost_annot.
+  istep i_account as a s1 HV1 L1 (Ha & _ & _).
+  apply ipost_ret_with; [assumption|lia|]. prj. rewrite Ha. prj. repeat split; reflexivity.
+Qed.
+
+Lemma i_close_sep sc date s : VInv s ->
+  ipost (fun o s' => cl_date o = date /\ cl_range o = mkRange (sc_start sc) (off s') /\
+                     r_end (acc_range (cl_account o)) = off s')
+        (off s) (parse_close E sc date s).
+Proof using All.
+  intros HV. unfold parse_close. apply ipost_annot.
+  istep i_account as a s1 HV1 L1 (Ha & _ & _).
+  apply ipost_ret_with; [assumption|lia|]. prj. rewrite Ha. prj. repeat split; reflexivity.
+Qed.
+
+Lemma i_price_sep sc date s : VInv s ->
+  ipost (fun p s' => pr_date p = date /\ pr_range p = mkRange (sc_start sc) (off s') /\
+           blanks1_b (slice t (r_end (pr_commodity p)) (r_start (pr_price p))) = true /\
+           blanks1_b (slice t (r_end (pr_price p)) (r_start (pr_target p))) = true /\
+           r_end (pr_target p) = off s')
+        (off s) (parse_price E sc date s).
+Proof using All.
+  intros HV. unfold parse_price.
+  eapply ipost_bind with (Q1 := fun cp s4 =>
+      blanks1_b (slice t (r_end (fst cp)) (r_start (snd cp))) = true /\
+      exists s3, VInv s3 /\ r_end (snd cp) = off s3 /\ ws1Q s3 s4); [|lia|].
+  { apply ipost_annot.
+    istep i_commodity as c s1 HV1 L1 (Hc & _ & _).
+    istep i_ws1w as ? s2 HV2 L2 Hq1.
+    istepand i_decimal decimal_not_nl as p s3 HV3 L3 ((Hp & _ & _) & (H10 & He)).
+    istep i_ws1w as ? s4 HV4 L4 Hq2.
+    apply ipost_ret; [assumption|lia|]. prj. rewrite Hc, Hp. prj. split; [now apply ws1_blanks1|].
+    exists s3. auto. }
+  intros cp s4 HV4 L4 (Hb1 & s3 & HV3 & He3 & Hq2).
+  istepand i_commodity commodity_not_nl as tg s5 HV5 L5 ((Htg & _ & _) & (H10 & He)).
+  apply ipost_ret_with; [assumption|lia|]. prj. split; [reflexivity|]. split; [reflexivity|]. split; [exact Hb1|].
+  rewrite Htg, He3. prj. split; [now apply ws1_blanks1|reflexivity].
+Qed.
+
+Lemma i_assertion_sep sc date s : VInv s ->
+  ipost (fun a s' => as_date a = date /\ as_range a = mkRange (sc_start sc) (off s') /\
+           forallb (sep_balance t) (as_balances a) = true /\
+           (match as_balances a with [b] => r_end (bl_range b) =? off s' | _ => false end ||
+            sep_lines t (off s' =? zlen t) (map bl_range (as_balances a)) (off s')) = true)
+        (off s) (parse_assertion E sc date s).
+Proof using All.
+  intros HV. unfold parse_assertion. apply ipost_annot.
+  unfold ifM. destruct (is_newline (cur s)).
+  - istep i_rest as ? s1 HV1 L1 _.
+    istep i_balances_loop_sep as bs s2 HV2 L2 (b1 & bs' & Hbs & _ & Hsl & Hall).
+    apply ipost_ret_with; [assumption|lia|]. prj. split; [reflexivity|]. split; [reflexivity|].
+    split; [exact Hall|]. rewrite Hsl. apply orb_true_r.
+  - istep i_balance_sep as b s1 HV1 L1 (Hb & _ & Hsb).
+    apply ipost_ret_with; [assumption|lia|]. prj. split; [reflexivity|]. split; [reflexivity|].
+    cbn [forallb]. rewrite Hsb, Hb. prj. rewrite Z.eqb_refl. split; reflexivity.
+Qed.
+
+Lemma i_transaction_sep sc date ad s : VInv s ->
+  ipost (fun x s' => tx_date x = date /\ tx_addons x = ad /\ tx_range x = mkRange (sc_start sc) (off s') /\
+           match tx_bookings x with
+           | b1 :: _ => restline_b (slice t (r_end (qs_range (tx_desc x))) (r_start (bk_range b1)))
+           | [] => false
+           end = true /\
+           sep_lines t (off s' =? zlen t) (map bk_range (tx_bookings x)) (off s') = true /\
+           forallb (sep_booking t) (tx_bookings x) = true)
+        (off s) (parse_transaction E sc date ad s).
+Proof using All.
+  intros HV. unfold parse_transaction. apply ipost_annot.
+  istep i_quoted as q s1 HV1 L1 (Hq & _ & _).
+  istep i_rest as ? s2 HV2 L2 Hrl.
+  eapply ipost_bind; [apply ipost_and; [apply (i_bookings_loop_sep _ s2 HV2)|]|lia|].
+  { intros bs s3 Hbs. exact (bookings_loop_start E _ _ _ _ Hbs). }
+  intros bs s3 HV3 L3 ((b1 & bs' & -> & Hst & Hsl & Hall) & (Hne & _)). cbv beta in *.
+  apply ipost_ret_with; [assumption|lia|]. prj. repeat (split; [reflexivity|]).
+  rewrite Hq, Hst. prj. split; [exact (rest_nl s1 s2 HV1 HV2 Hrl Hne)|]. split; assumption.
+Qed.
+
+(* ---- dropped addon lines ---- *)
+
+Lemma last_app_ne (a b : str) d : b <> [] -> last (a ++ b) d = last b d.
+Proof using.
+  clear. intros Hb. induction a as [|x a IH]; [reflexivity|]. cbn [app]. cbn [last].
+  destruct (a ++ b) eqn:Hab; [|exact IH]. apply app_eq_nil in Hab. tauto.
+Qed.
+
+Lemma first_byte s hi c : VInv s -> cur s = c -> 0 <= c < 128 -> off s < hi ->
+  exists r, slice t (off s) hi = c :: r.
+Proof using All.
+  intros HV Hc Hr Hlt.
+  assert (Hne : cur s <> eof) by (unfold eof; lia).
+  destruct (RoundTripBase.vinv_chunk E Hlen Hfuel Hdec Hloc s HV Hne) as (b & Hch & Hrb & _).
+  rewrite Hc in Hch. rewrite (chunk_ascii_inv dec Hdec c b Hch Hr) in Hrb.
+  pose proof HV as ((_ & Hrest & _) & _).
+  replace hi with (off s + (hi - off s)) by lia.
+  rewrite (slice_rest t (off s) (hi - off s) (rest s) Hrest), Hrb.
+  destruct (Z.to_nat (hi - off s)) as [|k] eqn:Hk; [lia|]. cbn [app firstn]. eauto.
+Qed.
+
+Lemma tile_last_nl lo hi p c : 0 <= lo -> tile_ad_b t false lo hi p c = true -> lo < hi ->
+  exists x, lo <= x /\ x <= hi /\ restline_b (slice t x hi) = true.
+Proof using.
+  clear. intros H0 H Hlt. unfold tile_ad_b in H.
+  destruct (is_zero_perf p), (is_zero_accrual c).
+  - lia.
+  - apply andb_true_iff in H. destruct H as (H & H3). apply andb_true_iff in H. destruct H as (H1 & H2).
+    rewrite restline_end_false in H3. pose proof (restline_lt _ _ H3). exists (r_end (ac_range c)). split; [lia|]. split; [lia|exact H3].
+  - apply andb_true_iff in H. destruct H as (H & H3). apply andb_true_iff in H. destruct H as (H1 & H2).
+    rewrite restline_end_false in H3. pose proof (restline_lt _ _ H3). exists (r_end (pf_range p)). split; [lia|]. split; [lia|exact H3].
+  - apply andb_true_iff in H. destruct H as (H & H3). apply andb_true_iff in H. destruct H as (H1 & H2).
+    destruct (r_start (pf_range p) <? r_start (ac_range c)).
+    + apply andb_true_iff in H3. destruct H3 as (H3 & H5). apply andb_true_iff in H3. destruct H3 as (H3 & H4).
+      rewrite restline_end_false in H5. pose proof (restline_lt _ _ H4). pose proof (restline_lt _ _ H5).
+      exists (r_end (ac_range c)). split; [lia|]. split; [lia|exact H5].
+    + apply andb_true_iff in H3. destruct H3 as (H3 & H5). apply andb_true_iff in H3. destruct H3 as (H3 & H4).
+      rewrite restline_end_false in H5. pose proof (restline_lt _ _ H4). pose proof (restline_lt _ _ H5).
+      exists (r_end (pf_range p)). split; [lia|]. split; [lia|exact H5].
+Qed.
+
+(* what parseDirective knows after its addons *)
+Definition AdQ (s : state) (ad : addons) (s1 : state) : Prop :=
+  (ad = zero_addons /\ s1 = s) \/
+  (cur s = 64 /\ ad_range ad = mkRange (off s) (off s1) /\ off s < off s1 /\
+   tile_ad_b t (cur s1 =? eof) (off s) (off s1) (ad_perf ad) (ad_accrual ad) = true /\
+   sep_perf t (ad_perf ad) = true /\ sep_accrual t (ad_accrual ad) = true).
+
+Lemma adq_facts s ad s1 : VInv s -> AdQ s ad s1 -> cur s1 <> eof ->
+  sep_addons t ad = true /\ sep_dropped t (off s) (off s1) = true /\
+  (if is_zero_addons ad then off s1 =? off s
+   else (r_start (ad_range ad) =? off s) && (off s1 =? r_end (ad_range ad))) = true.
+Proof using All.
+  intros HV [(-> & ->)|(H64 & Hr & Hlt & Ht & Hsp & Hsa)] Hne.
+  - split; [reflexivity|]. change (is_zero_addons zero_addons) with true. cbv iota.
+    unfold sep_dropped. rewrite slice_nil, !Z.eqb_refl. split; [|reflexivity].
+    destruct (Z.leb_spec (off s) (off s)); [reflexivity|lia].
+  - pose proof (inv_facts s (proj1 HV)) as (H0 & _).
+    replace (cur s1 =? eof) with false in Ht by (symmetry; now apply Z.eqb_neq).
+    assert (Hz : is_zero_addons ad = false).
+    { unfold is_zero_addons, is_zero_range. rewrite Hr. prj. destruct (Z.eqb_spec (off s1) 0); [lia|]. now rewrite andb_false_r. }
+    rewrite Hz. unfold sep_addons. rewrite Hz, Hr. prj. rewrite Ht, Hsp, Hsa, !Z.eqb_refl.
+    split; [destruct (Z.ltb_spec (off s) (off s1)); [reflexivity|lia]|]. split; [|reflexivity].
+    unfold sep_dropped. destruct (Z.leb_spec (off s) (off s1)); [|lia]. cbn [andb].
+    destruct (tile_last_nl _ _ _ _ H0 Ht Hlt) as (x & Hx1 & Hx2 & Hrl).
+    destruct (first_byte s (off s1) 64 HV H64 ltac:(lia) Hlt) as (r & Hfb).
+    unfold dropped_b. rewrite Hfb, <- Hfb. rewrite (slice_app t (off s) x (off s1)) by lia.
+    rewrite (last_app_ne _ _ 0 (restline_nonnil _ Hrl)), (restline_last _ 0 Hrl). reflexivity.
+Qed.
+
+(* ---- directive ---- *)
+
+Lemma i_directive_sep s : VInv s ->
+  ipost (fun d _ => sep_body t (d_range d) (d_body d) = true) (off s) (parse_directive E s).
+Proof using All.
+  intros HV. unfold parse_directive. apply ipost_annot.
+  eapply ipost_bind with (Q1 := fun ad s1 => AdQ s ad s1); [|lia|].
+  { unfold ifM, cur_is. destruct (Z.eqb_spec (cur s) 64) as [H64|H64].
+    - eapply ipost_weaken; [apply i_addons_sep; assumption|lia|]. intros a s' _ _ Ha. right. split; [exact H64|exact Ha].
+    - apply ipost_ret; [assumption|lia|]. left. auto. }
+  intros ad s1 HV1 L1 Had.
+  unfold ifM at 1. unfold cur_is at 1. destruct (Z.eqb_spec (cur s1) 105) as [H105|H105].
+  - istep i_include_sep as i s2 HV2 L2 (Hir & Hie).
+    apply ipost_ret_with; [assumption|lia|]. prj. cbn [sep_body].
+    destruct (adq_facts s ad s1 HV Had ltac:(unfold eof; lia)) as (_ & Hdr & _).
+    rewrite Hir, Hie. prj. rewrite Hdr, Z.eqb_refl. reflexivity.
+  - istepand i_date (date_start E) as date s2 HV2 L2 ((Hdate & _ & _) & (Hne1 & _)).
+    destruct (adq_facts s ad s1 HV Had Hne1) as (Hsad & Hdr & Hadj).
+    istep i_ws1w as ? s3 HV3 L3 _.
+    unfold ifM at 1. destruct (cur_is 34 s3).
+    + istep i_transaction_sep as x s4 HV4 L4 (Hxd & Hxa & Hxr & Hx1 & Hx2 & Hx3).
+      apply ipost_ret_with; [assumption|lia|]. prj. cbn [sep_body].
+      rewrite Hxd, Hxa, Hxr, Hdate. prj. rewrite Hsad, Hx1, Hx2, Hx3. cbn [andb]. rewrite !andb_true_r.
+      destruct (is_zero_addons ad); [exact Hadj|].
+      apply andb_true_iff in Hadj. destruct Hadj as (A1 & A2). rewrite A1. exact A2.
+    + istep i_ra as kw s4 HV4 L4 (Hkw & k & Hin & Hwk). { repeat constructor; unfold ascii; lia. }
+      istep i_ws1w as ? s5 HV5 L5 _.
+      assert (Hex : extract E kw = k).
+      { rewrite Hkw. unfold extract. prj. apply (win_slice s3 k s4 (proj1 HV3) (proj1 HV4) Hwk). }
+      destruct (str_eqb (extract E kw) kw_open) eqn:E1; [|
+      destruct (str_eqb (extract E kw) kw_close) eqn:E2; [|
+      destruct (str_eqb (extract E kw) kw_balance) eqn:E3; [|
+      destruct (str_eqb (extract E kw) kw_price) eqn:E4]]].
+      * istep i_open_sep as x s6 HV6 L6 (Hxd & Hxr & Hxe).
+        apply ipost_ret_with; [assumption|lia|]. prj. cbn [sep_body].
+        rewrite Hxd, Hxr, Hxe, Hdate. prj. rewrite Hdr, Z.eqb_refl. reflexivity.
+      * istep i_close_sep as x s6 HV6 L6 (Hxd & Hxr & Hxe).
+        apply ipost_ret_with; [assumption|lia|]. prj. cbn [sep_body].
+        rewrite Hxd, Hxr, Hxe, Hdate. prj. rewrite Hdr, Z.eqb_refl. reflexivity.
+      * istep i_assertion_sep as x s6 HV6 L6 (Hxd & Hxr & Hx1 & Hx2).
+        apply ipost_ret_with; [assumption|lia|]. prj. cbn [sep_body].
+        rewrite Hxd, Hxr, Hdate. prj. rewrite Hdr, Hx1, Hx2. reflexivity.
+      * istep i_price_sep as x s6 HV6 L6 (Hxd & Hxr & Hx1 & Hx2 & Hxe).
+        apply ipost_ret_with; [assumption|lia|]. prj. cbn [sep_body].
+        rewrite Hxd, Hxr, Hxe, Hdate. prj. rewrite Hdr, Hx1, Hx2, Z.eqb_refl. reflexivity.
+      * exfalso. rewrite Hex in E1, E2, E3, E4. cbn [In] in Hin.
+        destruct Hin as [<-|[<-|[<-|[<-|[]]]]];
+          [rewrite str_eqb_refl in E1|rewrite str_eqb_refl in E2|rewrite str_eqb_refl in E3|rewrite str_eqb_refl in E4];
+          discriminate.
+Qed.
+
+Lemma parse_env_separators f : parse_env E = ParseOk f -> wf_separators_b t f = true.
+Proof using All.
+  unfold parse_env. destruct (advance E (init_state E)) as [u s|e s|] eqn:Ha; try discriminate.
+  destruct (inv_advance_init E Hlen Hfuel Hdec Hloc u s Ha) as (HV & Ho).
+  unfold parse_file, annot, bind.
+  pose proof (i_file_loop_all E Hlen Hfuel Hdec Hloc (fun d => sep_body t (d_range d) (d_body d) = true)
+                i_directive_sep (loop_fuel E) s HV) as Hf.
+  destruct (file_loop E (loop_fuel E) s) as [ds s'|e s'|]; cbn [RoundTripLeaf.ipost] in Hf; try discriminate.
+  unfold ret_with. intros H. inversion H. subst f. unfold wf_separators_b. prj.
+  destruct Hf as (_ & _ & Hf). apply forallb_forall. rewrite Forall_forall in Hf. exact Hf.
+Qed.
+
 End WithEnv.
+
+(* ================================================================== the theorem *)
+
+Theorem parse_text_separators letter digit t f : class_ok letter digit ->
+  parse_text letter digit t = ParseOk f -> wf_separators_b t f = true.
+Proof.
+  intros Hcls Hp. set (E := mk_env Utf8M.decode letter digit t).
+  assert (Hfuel : (length (e_text E) < e_fuel E)%nat) by (cbn [E mk_env e_text e_fuel]; lia).
+  exact (parse_env_separators E eq_refl Hfuel utf8_decoder_ok utf8_decoder_local Hcls f Hp).
+Qed.
+
+(* without [class_ok] the blanks readWhitespace1 leaves out may be missing altogether: a
+   classification that calls the newline a letter lets the target commodity of a price start
+   with the newline that follows the number *)
+Definition nls_text : str := Eval vm_compute in
+  runes_of_string "2020-01-01 price A 1
+B"%string.
+
+Theorem separators_unrestricted_refuted :
+  exists letter digit t f, parse_text letter digit t = ParseOk f /\ wf_separators_b t f = false.
+Proof.
+  exists nl_letter, nl_digit, nls_text. eexists. split; [vm_compute; reflexivity|]. vm_compute. reflexivity.
+Qed.
